@@ -210,6 +210,57 @@ pub fn generate(count: usize, seed: u64, profile: u8) -> Vec<(String, &'static s
                 p.sq[sq] = -strong * (1 + rnd(4) as i8);
             }
             p.white = strong > 0;
+        } else if profile == 6 {
+            // sparse positions: the kings and two to five pieces of any kind and colour
+            for _ in 0..(2 + rnd(4) as usize) {
+                let sq = rnd(64) as usize;
+                if p.sq[sq] != 0 {
+                    continue;
+                }
+                let kind = 1 + rnd(5) as i8;
+                if kind == 1 && (sq < 8 || sq >= 56) {
+                    continue;
+                }
+                p.sq[sq] = if rnd(2) == 0 { kind } else { -kind };
+            }
+            p.white = rnd(2) == 0;
+        } else if profile == 5 {
+            // a double pawn step that gives check and can only be answered by capturing en passant
+            // (it would be mate without that rule), in a position that has a real short mate
+            let f = 1 + rnd(6) as usize;
+            let ks: i32 = if rnd(2) == 0 { -1 } else { 1 };
+            let ps: i32 = if rnd(2) == 0 { -1 } else { 1 };
+            for sq in 0..64 {
+                p.sq[sq] = 0;
+            }
+            let bk2 = 4 * 8 + (f as i32 + ks) as usize;
+            let bp = 3 * 8 + (f as i32 + ps) as usize;
+            p.sq[8 + f] = 1;
+            p.sq[bk2] = -super::oracle::K;
+            p.sq[bp] = -1;
+            let mut wk2 = rnd(64) as usize;
+            let mut guard = 0;
+            while guard < 50 && (p.sq[wk2] != 0 || wk2 == 16 + f || wk2 == 24 + f || (((wk2 % 8) as i32 - (bk2 % 8) as i32).abs() <= 1 && ((wk2 / 8) as i32 - (bk2 / 8) as i32).abs() <= 1)) {
+                wk2 = rnd(64) as usize;
+                guard += 1;
+            }
+            if guard >= 50 {
+                return None;
+            }
+            p.sq[wk2] = super::oracle::K;
+            let kinds = [1i8, 1, 2, 3, 4, 5, 2, 3, 4];
+            for _ in 0..(3 + rnd(7) as usize) {
+                let sq = rnd(64) as usize;
+                if p.sq[sq] != 0 || sq == 16 + f || sq == 24 + f {
+                    continue;
+                }
+                let kind = kinds[rnd(kinds.len() as u64) as usize];
+                if kind == 1 && (sq < 8 || sq >= 56) {
+                    continue;
+                }
+                p.sq[sq] = if rnd(3) != 0 { kind } else { -kind };
+            }
+            p.white = true;
         } else if profile == 3 {
             // promotion positions: the side to move has one to three pawns on its seventh rank,
             // a few pieces, and the decisive move(s) are promotions (filtered below)
@@ -274,6 +325,20 @@ pub fn generate(count: usize, seed: u64, profile: u8) -> Vec<(String, &'static s
         let c = classify(&p);
         if !c.interesting() {
             return None;
+        }
+        if profile == 5 {
+            // the double step must be legal, give check, and leave only en-passant captures as replies;
+            // the position must have a real mate in two (or in one) that is NOT that double step
+            let Some(pushm) = p.legal_moves().into_iter().find(|m| m.double && m.piece == 1 && p.make(m).in_check(false)) else { return None };
+            let after = p.make(&pushm);
+            let replies = after.legal_moves();
+            if replies.is_empty() || !replies.iter().all(|r| r.ep) {
+                return None;
+            }
+            let key: &Vec<String> = if !c.mate_in_1.is_empty() { &c.mate_in_1 } else if !c.mate_in_2.is_empty() { &c.mate_in_2 } else { return None };
+            if key.contains(&pushm.uci()) {
+                return None;
+            }
         }
         if profile == 4 {
             // "greedy trap" positions: a mate in two whose keys are all quiet, non-checking moves
@@ -444,6 +509,18 @@ pub fn targets(tier: &str) -> Vec<Target> {
                 }
             }
             out.push(Target { fen: p.fen(), class: c, busy: true, level, heavy });
+        }
+    }
+    // a double pawn step that would be mate but for the en-passant capture, next to a real short
+    // mate: both colours (the generator builds White-to-move positions, the mirror is added here)
+    for (k, line) in include_str!("mate_family_epcheck.txt").lines().enumerate() {
+        let Some((_, fen)) = line.split_once('\t') else { continue };
+        let Ok(p) = Pos::from_fen(fen) else { continue };
+        for q in [p.clone(), p.mirror()] {
+            let c = classify(&q);
+            if c.interesting() {
+                out.push(Target { fen: q.fen(), class: c, busy: true, level: u8::from(k < 20), heavy: false });
+            }
         }
     }
     out
